@@ -134,6 +134,12 @@ func runTry(src string, opts ugo.CompilerOptions) (out any, log any, err error) 
 
 func runTryBC(bc *ugo.Bytecode) (out any, log any, err error) {
 	g := ugo.Map{"log": ugo.Array{}}
+	// (no panic recovery in the VM: a Go panic out of Run is an outcome of its own, no reference outcome equals it)
+	defer func() {
+		if p := recover(); p != nil {
+			out, log, err = []any{"gopanic", fmt.Sprint(p)}, objToAny(g["log"]), nil
+		}
+	}()
 	ret, rerr := ugo.NewVM(bc).Run(g)
 	out = outcomeOf(ret, rerr)
 	return out, objToAny(g["log"]), nil
